@@ -63,6 +63,15 @@ from symtrace import (CONST, CallNode, Cond, Node, ProxyLinalg, ProxyNumpy, SArr
 
 N_GRAINS = (1, 2, 3)
 ASSEMBLAGES = {"0": (0,), "1": (1,), "01": (0, 1), "10": (1, 0)}
+LOOP_STEPS = {1: (2, 3), 2: (2,), 3: (2,)}      # solver-loop lengths traced per grain count
+BULK_SIZES = {1: (2, 3), 2: (), 3: ()}        # numbers of minerals handed to update_all per grain count
+GR_VARIANTS = ("0", "10")                       # assemblages for which eval_rhs is traced with get_regime
+# integer literals > 3 of the traced glue functions (srcguard.literal_guard): the 9 / 10 of the state-vector
+# layout, the banded-Jacobian switch of __post_init__ (n_grains > 4632 -> lband = uband = 6000)
+GLUE_SIZE_LITERALS = {
+    "extract_vars": {9: 7, 10: 1}, "Mineral.update_orientations": {9: 1, 10: 1},
+    "Mineral.__post_init__": {6000: 2, 4632: 1},
+}
 
 
 # ---------------------------------------------------------------------------------------
@@ -239,6 +248,19 @@ class GArr(SArr):
     def __rmatmul__(self, o):
         return _garr(o).__matmul__(self)
 
+    # --- memory layout is not modelled: a flattening whose result depends on it fails closed
+    #     (seeded change C06e: `np.asarray(F).ravel(order="K")` transposes a Fortran-ordered F)
+    def ravel(self, order="C"):
+        if order != "C":
+            raise TranslatorUnsupported(f"ndarray.ravel(order={order!r}): the result depends on the memory layout of "
+                                        "the caller's array, which symbolic arrays do not have")
+        return _np.ndarray.ravel(self)
+
+    def flatten(self, order="C"):
+        if order != "C":
+            raise TranslatorUnsupported(f"ndarray.flatten(order={order!r}): layout-dependent flattening is not modelled")
+        return _np.ndarray.flatten(self)
+
     def max(self, *a, **k):
         raise TranslatorUnsupported("ndarray.max of a symbolic array")
 
@@ -341,6 +363,20 @@ class GlueProxy(ProxyNumpy):
     def zeros(self, shape, dtype=None):
         return super().zeros(shape, dtype).view(GArr)
 
+    def asarray(self, x, dtype=None):
+        """np.asarray does NOT copy an ndarray that already has the requested dtype: the result IS the caller's
+        array, an in-place operation on it writes into the caller's data (seeded change C05e).  The shared proxy's
+        `asarray` copies; here the same object comes back, so that such a write is seen by the argument-mutation
+        check of the tracer."""
+        if isinstance(x, _np.ndarray):
+            return x if isinstance(x, GArr) else x.view(GArr)
+        return super().array(x, dtype).view(GArr)
+
+    def full(self, shape, fill_value, dtype=None):
+        a = _np.empty(self._shape(shape), dtype=object).view(GArr)
+        a.reshape(-1)[:] = [lift(fill_value)] * a.size
+        return a
+
 
 # ---------------------------------------------------------------------------------------
 # LSODA stand-ins
@@ -351,6 +387,15 @@ class _Captured(Exception):
 
 class _ReturnsNone(Exception):
     """eval_rhs returned None: LSODA cannot continue (TypeError inside the integrator)"""
+
+
+class _IterationFailed(Exception):
+    """update_orientations raised pydrex.exceptions.IterationError (solver step failed) and the
+    adapter has verified that the stored history is untouched: leaf Err OtherError"""
+
+
+class _UnboundResult(Exception):
+    """update_all([]) : `new_deformation_gradient` is unbound (UnboundLocalError): leaf Err OtherError"""
 
 
 class GlueTranslation(Translation):
@@ -395,6 +440,8 @@ class GlueTranslation(Translation):
                     raise
                 except _ReturnsNone:
                     leaf = ("err", "TypeError")
+                except (_IterationFailed, _UnboundResult):
+                    leaf = ("err", "OtherError")
                 except ZeroDivisionError:
                     leaf = ("err", "DivZero")
                 except NonFiniteValue:
@@ -494,6 +541,36 @@ def translations():
     def const_prev(n):
         return (_garr(_np.array([_np.eye(3)] * n)), _garr(_np.full(n, 1.0 / n)))
 
+    def mk_mineral_hist(n, prev_o, prev_f, ords=None):
+        """A mineral whose history is [decoy, (prev_o, prev_f)]: the DECOY is an older snapshot of constants
+        (orientations 1/2, fractions 1/4) -- code that reads `orientations[0]` / `fractions[0]` where it must read
+        the LAST snapshot then produces those constants and an instance lemma breaks (with a one-snapshot mineral
+        [0] and [-1] are the same object; mutation m7 of round 5 went through the tie that way).  `ords`: symbolic
+        (regime, phase, fabric) ordinals stored on the mineral, so that a branch of the DRIVER on them forks
+        (seeded change C07d: LSODA bypassed in the viscosity-bound regimes)."""
+        m = mk_mineral(n, prev_o, prev_f)
+        decoy = (_garr(_np.full((n, 3, 3), 0.5)), _garr(_np.full(n, 0.25)))
+        m.orientations.insert(0, decoy[0])
+        m.fractions.insert(0, decoy[1])
+        if ords is not None:
+            m.regime, m.phase, m.fabric = ords
+        return m, decoy
+
+    def check_hist(m, decoy, prev_o, prev_f, grown, ords=None):
+        want = 2 + (1 if grown else 0)
+        if len(m.orientations) != want or len(m.fractions) != want:
+            raise TranslatorUnsupported("update_orientations does not append exactly one snapshot" if grown
+                                        else "the stored history changed although nothing was to be stored")
+        if m.orientations[0] is not decoy[0] or m.fractions[0] is not decoy[1] \
+                or m.orientations[1] is not prev_o or m.fractions[1] is not prev_f:
+            raise TranslatorUnsupported("update_orientations replaces / reorders earlier snapshots")
+        for a, v in ((decoy[0], 0.5), (decoy[1], 0.25)):
+            if any((not isinstance(x, Node)) or (not x.is_const) or cval(x) != v for x in a.reshape(-1)):
+                raise TranslatorUnsupported("an earlier snapshot was written into")
+        if ords is not None and (m.regime is not ords[0] or m.phase is not ords[1] or m.fabric is not ords[2]):
+            raise TranslatorUnsupported("the update rebinds the mineral's regime / phase / fabric although no "
+                                        "get_regime callable was given")
+
     # ================= extract_vars / apply_gbs =================
     def mk_extract_vars(n):
         def extract_vars_n(y):
@@ -570,7 +647,7 @@ def translations():
         def update_n(chi, prev, y):
             prev_o = prev.view(GArr)
             _, prev_f = const_prev(n)
-            m = mk_mineral(n, prev_o, prev_f)
+            m, decoy = mk_mineral_hist(n, prev_o, prev_f)
             params = {"phase_assemblage": (core.MineralPhase.olivine,), "phase_fractions": [CONST(1)],
                       "stress_exponent": CONST(1), "deformation_exponent": CONST(1),
                       "nucleation_efficiency": CONST(1), "gbm_mobility": CONST(1),
@@ -598,12 +675,347 @@ def translations():
                 pm.__dict__["LSODA"] = saved
             if len(made) != 1 or made[0].nsteps != 1:
                 raise TranslatorUnsupported("update_orientations: not exactly one solver / one step")
-            if len(m.orientations) != 2 or len(m.fractions) != 2:
-                raise TranslatorUnsupported("update_orientations does not append exactly one snapshot")
-            if m.orientations[0] is not prev_o or m.fractions[0] is not prev_f:
-                raise TranslatorUnsupported("update_orientations replaces the earlier snapshot")
+            check_hist(m, decoy, prev_o, prev_f, grown=True)
             return F_ret, m.orientations[-1], m.fractions[-1]
         return update_n
+
+    # ================= the driver around the integrator (round 5) =================
+    # Everything below runs the REAL Mineral.update_orientations / update_all / __post_init__ with a
+    # stand-in for scipy's LSODA (and for scipy's Rotation); what the stand-in is constructed with, and
+    # what the method does with the vectors the stand-in "integrates", is the generated definition.
+    def plain_params(chi):
+        return {"phase_assemblage": (core.MineralPhase.olivine,), "phase_fractions": [CONST(1)],
+                "stress_exponent": CONST(1), "deformation_exponent": CONST(1),
+                "nucleation_efficiency": CONST(1), "gbm_mobility": CONST(1), "gbs_threshold": chi}
+
+    def zero_L(t, x):
+        return _garr(_np.zeros((3, 3)))
+
+    def with_lsoda(cls, thunk):
+        saved = pm.__dict__["LSODA"]
+        pm.__dict__["LSODA"] = cls
+        try:
+            return thunk()
+        finally:
+            pm.__dict__["LSODA"] = saved
+
+    LSODA_KW = ("atol", "rtol", "first_step", "lband", "uband")
+
+    def check_ctor(a, kw, t0, t1, extra=()):
+        """the constructor call LSODA(fun, t0, y0, t_bound, **kw) of update_orientations"""
+        if len(a) != 4 or not callable(a[0]):
+            raise TranslatorUnsupported("LSODA is not constructed as LSODA(fun, t0, y0, t_bound, **kw)")
+        if a[1] is not t0 or a[3] is not t1:
+            raise TranslatorUnsupported("LSODA's t0 / t_bound are not the pathline's start / end time")
+        if sorted(kw) != sorted(LSODA_KW + tuple(extra)):
+            raise TranslatorUnsupported(
+                f"LSODA keyword arguments {sorted(kw)}: expected {sorted(LSODA_KW + tuple(extra))} "
+                "(a new step-size / tolerance argument needs a model: Model_minerals.lsoda_problem)")
+        if kw["lband"] is not None or kw["uband"] is not None:
+            raise TranslatorUnsupported("lband / uband are not None for a small aggregate")
+
+    # ---- LSODA's constructor arguments: (t0, y0, t_bound, atol, rtol, first_step)
+    def mk_lsoda_args(n):
+        def lsoda_args_n(regime, phase, fabric, Fd, prev_o, prev_f, t0, t1):
+            po, pf, ords = prev_o.view(GArr), prev_f.view(GArr), (regime, phase, fabric)
+            m, decoy = mk_mineral_hist(n, po, pf, ords)
+            cap = {}
+
+            class _ArgsLSODA:
+                def __init__(self, *a, **kw):
+                    cap["a"], cap["kw"] = a, kw
+                    raise _Captured()
+
+            try:
+                with_lsoda(_ArgsLSODA, lambda: m.update_orientations(
+                    plain_params(CONST(0)), Fd.view(GArr), zero_L, (t0, t1, lambda t: None)))
+            except _Captured:
+                pass
+            if "a" not in cap:
+                raise TranslatorUnsupported("update_orientations did not construct LSODA")
+            a, kw = cap["a"], cap["kw"]
+            check_ctor(a, kw, t0, t1)
+            check_hist(m, decoy, po, pf, grown=False, ords=ords)
+            return a[1], a[2], a[3], kw["atol"], kw["rtol"], kw["first_step"]
+        return lsoda_args_n
+
+    # ---- the caller's own atol / rtol / first_step replace the defaults; any further keyword
+    #      (here max_step, min_step) is handed to LSODA unchanged
+    def mk_lsoda_args_user(n):
+        def lsoda_args_user_n(Fd, prev_o, prev_f, t0, t1, uatol, urtol, ufirst, umax, umin):
+            m, _decoy = mk_mineral_hist(n, prev_o.view(GArr), prev_f.view(GArr))
+            cap = {}
+
+            class _ArgsLSODA:
+                def __init__(self, *a, **kw):
+                    cap["a"], cap["kw"] = a, kw
+                    raise _Captured()
+
+            try:
+                with_lsoda(_ArgsLSODA, lambda: m.update_orientations(
+                    plain_params(CONST(0)), Fd.view(GArr), zero_L, (t0, t1, lambda t: None),
+                    atol=uatol, rtol=urtol, first_step=ufirst, max_step=umax, min_step=umin))
+            except _Captured:
+                pass
+            if "a" not in cap:
+                raise TranslatorUnsupported("update_orientations did not construct LSODA")
+            a, kw = cap["a"], cap["kw"]
+            check_ctor(a, kw, t0, t1, extra=("max_step", "min_step"))
+            return (a[1], a[2], a[3], kw["atol"], kw["rtol"], kw["first_step"], kw["max_step"],
+                    kw["min_step"])
+        return lsoda_args_user_n
+
+    # ---- the solver loop: `msteps` integrator steps; after step j the integrator's state vector is
+    #      the (independent, symbolic) vector y_j.  `fail` selects what the stand-in's step() reports:
+    #         fail ==  j : step j returns a message and status "failed"   -> IterationError
+    #         fail == -j : step j returns a message but the status is not "failed" -> goes on
+    #         otherwise  : every step returns None
+    #      On IterationError the adapter verifies that the stored history is untouched.
+    def mk_update_loop(n, msteps):
+        def update_loop_n(fail, regime, phase, fabric, chi, prev, *ys):
+            prev_o = prev.view(GArr)
+            _, prev_f = const_prev(n)
+            ords = (regime, phase, fabric)
+            m, decoy = mk_mineral_hist(n, prev_o, prev_f, ords)
+            vecs = [y.copy().view(GArr) for y in ys]
+            made = []
+
+            class _LoopLSODA:
+                def __init__(self, fun, t0, y0, t_bound, **kw):
+                    self.y, self.status, self.nsteps = None, "running", 0
+                    made.append(self)
+
+                def step(self):
+                    if self.status != "running":
+                        raise TranslatorUnsupported("step() of a solver that is not running")
+                    self.nsteps += 1
+                    j = self.nsteps
+                    if j > msteps:
+                        raise TranslatorUnsupported("more solver steps than the stand-in provides")
+                    self.y = vecs[j - 1]          # scipy rebinds solver.y after every step
+                    if fail == j:
+                        self.status = "failed"
+                        return "stand-in: step failed"
+                    self.status = "finished" if j == msteps else "running"
+                    if fail == -j:
+                        return "stand-in: a message without failure"
+                    return None
+
+            try:
+                F_ret = with_lsoda(_LoopLSODA, lambda: m.update_orientations(
+                    plain_params(chi), _garr(_np.eye(3)), zero_L, (0.0, 1.0, lambda t: None)))
+            except pm._err.IterationError:
+                try:
+                    check_hist(m, decoy, prev_o, prev_f, grown=False, ords=ords)
+                except TranslatorUnsupported:
+                    raise TranslatorUnsupported("a failed update changed the stored history")
+                if len(made) != 1 or made[0].status != "failed":
+                    raise TranslatorUnsupported("IterationError without a failed solver step")
+                raise _IterationFailed()
+            if len(made) != 1 or made[0].nsteps != msteps:
+                raise TranslatorUnsupported("update_orientations: not exactly one solver / all its steps")
+            check_hist(m, decoy, prev_o, prev_f, grown=True, ords=ords)
+            return F_ret, m.orientations[-1], m.fractions[-1]
+        return update_loop_n
+
+    # ---- eval_rhs with a get_regime callable: the regime the kernel sees (and the regime stored on
+    #      the mineral afterwards) is what the callable returns at (t, position), not the constructed one
+    def mk_eval_rhs_gr(n, assemblage, nphi):
+        def eval_rhs_gr_n(regime0, regime, phase, fabric, phis, L, s, Sd, p, nn, lam, M, y):
+            prev_o, prev_f = const_prev(n)
+            m = mk_mineral(n, prev_o, prev_f)
+            params = {
+                "phase_assemblage": tuple(core.MineralPhase(a) for a in assemblage),
+                "phase_fractions": [phis[i] for i in range(nphi)],
+                "stress_exponent": p, "deformation_exponent": nn,
+                "nucleation_efficiency": lam, "gbm_mobility": M,
+                "gbs_threshold": CONST(0),
+            }
+            Lg = L.view(GArr)
+            captured = {}
+            POS = object()
+            T_EVAL = 0.25
+            seen = {"pos": [], "L": [], "reg": []}
+
+            class _CaptureLSODA:
+                def __init__(self, fun, t0, y0, t_bound, **kw):
+                    captured["fun"] = fun
+                    raise _Captured()
+
+            def get_position(t):
+                seen["pos"].append(t)
+                return POS
+
+            def get_L(t, x):
+                seen["L"].append((t, x))
+                return Lg
+
+            def get_regime(t, x):
+                seen["reg"].append((t, x))
+                return regime
+
+            try:
+                with_lsoda(_CaptureLSODA, lambda: m.update_orientations(
+                    params, _garr(_np.eye(3)), get_L, (0.0, 1.0, get_position), get_regime=get_regime))
+            except _Captured:
+                pass
+            fun = captured.get("fun")
+            if fun is None:
+                raise TranslatorUnsupported("update_orientations did not construct LSODA")
+            if seen["reg"]:
+                raise TranslatorUnsupported("get_regime is evaluated outside eval_rhs")
+            m.regime, m.phase, m.fabric = regime0, phase, fabric
+            seen["pos"].clear(); seen["L"].clear()
+            orc.L, orc.s, orc.Sd, orc.used = Lg, s, Sd.view(GArr), 0
+            try:
+                out = fun(T_EVAL, y.view(GArr))
+            finally:
+                orc.L = orc.s = orc.Sd = None
+            if out is None:
+                if seen["reg"]:
+                    raise TranslatorUnsupported("get_regime consulted for a mineral that is skipped")
+                raise _ReturnsNone()
+            if seen["pos"] != [T_EVAL] or len(seen["L"]) != 1 or seen["L"][0][0] != T_EVAL \
+                    or seen["L"][0][1] is not POS:
+                raise TranslatorUnsupported("eval_rhs(t, y) does not evaluate L at (t, get_position(t)) once")
+            if len(seen["reg"]) != 1 or seen["reg"][0][0] != T_EVAL or seen["reg"][0][1] is not POS:
+                raise TranslatorUnsupported("eval_rhs(t, y) does not evaluate get_regime at (t, get_position(t)) once")
+            if m.regime is not regime:
+                raise TranslatorUnsupported("the regime returned by get_regime is not stored on the mineral")
+            if m.phase is not phase or m.fabric is not fabric:
+                raise TranslatorUnsupported("eval_rhs rebinds the mineral's phase / fabric")
+            if len(m.orientations) != 1 or len(m.fractions) != 1:
+                raise TranslatorUnsupported("eval_rhs appends a snapshot")
+            return out
+        return eval_rhs_gr_n
+
+    # ---- update_all: K minerals (n grains each), one integrator step each; returns the value of the
+    #      call, the y0 every mineral's integrator was constructed with, and the appended snapshots.
+    #      fail == j: the integrator of mineral j fails -> the exception leaves update_all; the adapter
+    #      verifies that minerals before j were updated and minerals from j on are untouched.
+    def mk_update_all(n, K):
+        def update_all_n(fail, regime, phase, fabric, chi, Fd, *rest):
+            prevs = [(rest[2 * i].view(GArr), rest[2 * i + 1].view(GArr)) for i in range(K)]
+            vecs = [rest[2 * K + i].copy().view(GArr) for i in range(K)]
+            ords = (regime, phase, fabric)
+            built = [mk_mineral_hist(n, o, f, ords) for o, f in prevs]
+            ms = [b[0] for b in built]
+            decoys = [b[1] for b in built]
+            Fg = Fd.view(GArr)
+            F_before = list(Fg.reshape(-1))
+            made = []
+
+            class _BulkLSODA:
+                def __init__(self, fun, t0, y0, t_bound, **kw):
+                    self.idx = len(made)
+                    if self.idx >= K:
+                        raise TranslatorUnsupported("update_all builds more solvers than minerals")
+                    self.y0 = y0
+                    self.y, self.status, self.nsteps = None, "running", 0
+                    made.append(self)
+
+                def step(self):
+                    self.nsteps += 1
+                    self.y = vecs[self.idx]
+                    if fail == self.idx + 1:
+                        self.status = "failed"
+                        return "stand-in: step failed"
+                    self.status = "finished"
+                    return None
+
+            def call():
+                if K == 0:
+                    return pm.update_all([], plain_params(chi), Fg, zero_L, (0.0, 1.0, lambda t: None))
+                return pm.update_all(ms, plain_params(chi), Fg, zero_L, (0.0, 1.0, lambda t: None))
+
+            try:
+                F_ret = with_lsoda(_BulkLSODA, call)
+            except pm._err.IterationError:
+                j = len(made)           # the failing one is the last that was built
+                for i, mm in enumerate(ms):
+                    try:
+                        check_hist(mm, decoys[i], prevs[i][0], prevs[i][1], grown=(i < j - 1), ords=ords)
+                    except TranslatorUnsupported:
+                        raise TranslatorUnsupported("update_all after a failure: minerals before the failing one "
+                                                    "must be updated, the failing one and later ones untouched")
+                raise _IterationFailed()
+            except UnboundLocalError:
+                raise _UnboundResult()
+            if len(made) != K or any(s.nsteps != 1 for s in made):
+                raise TranslatorUnsupported("update_all: not one solver with one step per mineral")
+            if any(x is not y for x, y in zip(Fg.reshape(-1), F_before)):
+                raise TranslatorUnsupported("update_all writes into the caller's deformation gradient")
+            out = [F_ret]
+            for i, mm in enumerate(ms):
+                check_hist(mm, decoys[i], prevs[i][0], prevs[i][1], grown=True, ords=ords)
+                out += [made[i].y0, mm.orientations[-1], mm.fractions[-1]]
+            return tuple(out)
+        return update_all_n
+
+    # ---- Mineral.__post_init__: the initial snapshot.  scipy's Rotation.random(n, random_state=seed)
+    #      .as_matrix() is an ORACLE (the symbolic array R); the adapter checks its arguments.
+    SEED = 20260930
+
+    def mk_init_default(n):
+        def init_default_n(R):
+            Rg = R.view(GArr)
+            calls = []
+
+            class _Rot:
+                def __init__(self, a):
+                    self.a = a
+
+                def as_matrix(self):
+                    return self.a
+
+            class _RotationStub:
+                @staticmethod
+                def random(num=None, random_state=None, **kw):
+                    calls.append((num, random_state, kw))
+                    return _Rot(Rg)
+
+            saved = pm.__dict__["Rotation"]
+            pm.__dict__["Rotation"] = _RotationStub
+            try:
+                m = pm.Mineral(phase=core.MineralPhase.olivine, fabric=core.MineralFabric.olivine_A,
+                               regime=core.DeformationRegime.matrix_dislocation, n_grains=n, seed=SEED)
+            finally:
+                pm.__dict__["Rotation"] = saved
+            if calls != [(n, SEED, {})]:
+                raise TranslatorUnsupported("Rotation.random is not called once as random(n_grains, random_state=seed)")
+            check_fresh(m, n)
+            if m.orientations[0] is not Rg:
+                raise TranslatorUnsupported("the random orientations are not stored as they are")
+            return m.orientations[0], m.fractions[0]
+        return init_default_n
+
+    def check_fresh(m, n):
+        if len(m.orientations) != 1 or len(m.fractions) != 1:
+            raise TranslatorUnsupported("a new Mineral does not hold exactly one snapshot")
+        if "fractions_init" in m.__dict__ or "orientations_init" in m.__dict__:
+            raise TranslatorUnsupported("the *_init attributes survive __post_init__")
+        if m.lband is not None or m.uband is not None or m.n_grains != n:
+            raise TranslatorUnsupported("lband / uband / n_grains of a small aggregate")
+
+    def mk_init_user(n):
+        def init_user_n(o, f):
+            og, fg = o.view(GArr), f.view(GArr)
+
+            class _NoRotation:
+                def __getattr__(self, name):
+                    raise TranslatorUnsupported("Rotation used although the initial texture was supplied")
+
+            saved = pm.__dict__["Rotation"]
+            pm.__dict__["Rotation"] = _NoRotation()
+            try:
+                m = pm.Mineral(phase=core.MineralPhase.olivine, fabric=core.MineralFabric.olivine_A,
+                               regime=core.DeformationRegime.matrix_dislocation, n_grains=n,
+                               fractions_init=fg, orientations_init=og)
+            finally:
+                pm.__dict__["Rotation"] = saved
+            check_fresh(m, n)
+            return m.orientations[0], m.fractions[0]
+        return init_user_n
 
     # ---- register everything first (every other registered name is a call stub while one
     #      function is traced), then trace callees before callers
@@ -634,6 +1046,45 @@ def translations():
                  [("chi", S, None), ("prev", "arr", (n, 3, 3)), ("y", "arr", (ny,))],
                  f"k_update_n{n}")
         names.append(f"update_n{n}")
+    # ---- the driver around the integrator
+    ORDS = [("regime", "enum", None), ("phase", "enum", None), ("fabric", "enum", None)]
+    for n in N_GRAINS:
+        ny = 9 + 10 * n
+        register(f"lsoda_args_n{n}", mk_lsoda_args(n),
+                 ORDS + [("Fd", "arr", (3, 3)), ("prev_o", "arr", (n, 3, 3)), ("prev_f", "arr", (n,)),
+                         ("t0", S, None), ("t1", S, None)], f"k_lsoda_args_n{n}")
+        names.append(f"lsoda_args_n{n}")
+        for msteps in LOOP_STEPS[n]:
+            register(f"update_loop_n{n}_m{msteps}", mk_update_loop(n, msteps),
+                     [("fail", "enum", None)] + ORDS + [("chi", S, None), ("prev", "arr", (n, 3, 3))]
+                     + [(f"y{j + 1}", "arr", (ny,)) for j in range(msteps)],
+                     f"k_update_loop_n{n}_m{msteps}")
+            names.append(f"update_loop_n{n}_m{msteps}")
+        for K in BULK_SIZES[n]:
+            register(f"update_all_n{n}_k{K}", mk_update_all(n, K),
+                     [("fail", "enum", None)] + ORDS + [("chi", S, None), ("Fd", "arr", (3, 3))]
+                     + [x for i in range(K) for x in ((f"o{i + 1}", "arr", (n, 3, 3)), (f"f{i + 1}", "arr", (n,)))]
+                     + [(f"y{i + 1}", "arr", (ny,)) for i in range(K)],
+                     f"k_update_all_n{n}_k{K}")
+            names.append(f"update_all_n{n}_k{K}")
+        register(f"init_default_n{n}", mk_init_default(n), [("R", "arr", (n, 3, 3))], f"k_init_default_n{n}")
+        register(f"init_user_n{n}", mk_init_user(n), [("o", "arr", (n, 3, 3)), ("f", "arr", (n,))],
+                 f"k_init_user_n{n}")
+        names += [f"init_default_n{n}", f"init_user_n{n}"]
+    register("lsoda_args_user_n1", mk_lsoda_args_user(1),
+             [("Fd", "arr", (3, 3)), ("prev_o", "arr", (1, 3, 3)), ("prev_f", "arr", (1,)),
+              ("t0", S, None), ("t1", S, None), ("uatol", S, None), ("urtol", S, None),
+              ("ufirst", S, None), ("umax", S, None), ("umin", S, None)], "k_lsoda_args_user_n1")
+    names.append("lsoda_args_user_n1")
+    for tag in GR_VARIANTS:
+        a = ASSEMBLAGES[tag]
+        register(f"eval_rhs_gr_n1_a{tag}", mk_eval_rhs_gr(1, a, len(a)),
+                 [("regime0", "enum", None), ("regime", "enum", None), ("phase", "enum", None),
+                  ("fabric", "enum", None), ("phis", "arr", (len(a),)), ("L", "arr", (3, 3)), ("s", S, None),
+                  ("Sd", "arr", (3, 3)), ("p", S, None), ("nn", S, None), ("lam", S, None),
+                  ("M", S, None), ("y", "arr", (19,))],
+                 f"k_eval_rhs_gr_n1_a{tag}")
+        names.append(f"eval_rhs_gr_n1_a{tag}")
 
     import logging
     import pydrex.logger as plog
@@ -641,13 +1092,21 @@ def translations():
     rebinding = [(utils, "np", proxy), (pm, "np", proxy), (pm, "la", glue_la),
                  (pm, "_tensors", glue_tensors), (pm, "_core", glue_core), (pm, "_utils", glue_utils)]
     saved = [(mod, k, mod.__dict__[k]) for mod, k, _ in rebinding]
+    import srcguard
+    srcguard.literal_guard(utils.__file__, ["extract_vars", "apply_gbs"], GLUE_SIZE_LITERALS)
+    srcguard.literal_guard(pm.__file__, ["Mineral.update_orientations", "Mineral.__post_init__", "update_all"],
+                           GLUE_SIZE_LITERALS)
     try:
         for h, _ in quiet:          # "created Mineral ..." / "skipping ..." lines of every traced path
             h.setLevel(logging.CRITICAL)
         for mod, k, v in rebinding:
             mod.__dict__[k] = v
-        for nm in names:
-            tr.ensure(nm, {})
+        # a new module-level helper of pydrex.utils / pydrex.minerals called from the traced glue is not
+        # traced through silently (see srcguard.py)
+        with srcguard.UnlistedCallGuard(utils, ["extract_vars", "apply_gbs"]), \
+                srcguard.UnlistedCallGuard(pm, ["update_all"]):
+            for nm in names:
+                tr.ensure(nm, {})
     finally:
         for mod, k, v in saved:
             mod.__dict__[k] = v
